@@ -1780,3 +1780,68 @@ def float_const(bits, w):
         a = ('sym', '+inf' if f > 0 else '-inf')
         return Poly.atom(a)
     return Poly.const(Fr(f))
+
+
+def rebuild(p, mapping, ctx, tables=None):
+    """Deep substitution with re-evaluation: atoms in `mapping` are replaced, compound atoms are rebuilt from their
+    (recursively rebuilt) arguments through the constructors, so that constant arguments fold (mod(5+1, 1023) -> 6,
+    tbl(name, 6) -> the table entry when `tables` is given)."""
+    p = as_poly(p)
+    res = Poly({})
+    for m, c in p.t.items():
+        term = Poly.const(c)
+        for a, pw in m:
+            v = _rebuild_atom(a, mapping, ctx, tables)
+            if pw < 0:
+                cv = v.const_value()
+                v = Poly.const(Fr(1) / cv) if cv not in (None, 0) else inv_poly(v)
+                term = term * v.pow(-pw)
+            else:
+                term = term * v.pow(pw)
+        res = res + term
+    return res
+
+
+def _rebuild_atom(a, mapping, ctx, tables):
+    if a in mapping:
+        return as_poly(mapping[a])
+    tag = a[0]
+    R = lambda x: rebuild(x, mapping, ctx, tables)
+    if tag in ('sym', 'nan', 'app', 'tan') or a in (PINF_ATOM, NINF_ATOM):
+        return Poly.atom(a)
+    if tag == 'tbl':
+        idx = R(a[2])
+        c = idx.const_value()
+        if tables is not None and c is not None and a[1] in tables and c.denominator == 1 and 0 <= c < len(tables[a[1]]):
+            return Poly.const(Fr(tables[a[1]][int(c)]))
+        return Poly.atom(('tbl', a[1], idx))
+    if tag == 'mod':
+        return t_mod(R(a[1]), R(a[2]), ctx)
+    if tag == 'idiv':
+        return t_idiv(R(a[1]), R(a[2]), ctx)
+    if tag in ('min', 'fmin'):
+        return t_min(R(a[1]), R(a[2]), ctx, tag)
+    if tag in ('max', 'fmax'):
+        return t_max(R(a[1]), R(a[2]), ctx, tag)
+    if tag == 'abs':
+        return t_abs(R(a[1]), ctx)
+    if tag == 'f2i':
+        return t_f2i(R(a[1]), a[2], a[3], ctx)
+    if tag == 'frem':
+        return t_frem(R(a[1]), R(a[2]), ctx)
+    if tag == 'bitand':
+        return t_bitand(R(a[1]), R(a[2]), ctx)
+    if tag == 'bitor':
+        return t_bitor(R(a[1]), R(a[2]), ctx)
+    if tag == 'bitxor':
+        return t_bitxor(R(a[1]), R(a[2]), ctx)
+    if tag == 'shl':
+        return t_shl(R(a[1]), R(a[2]), ctx)
+    if tag == 'shr':
+        return t_shr(R(a[1]), R(a[2]), ctx)
+    if tag == 'inv':
+        v = R(a[1])
+        cv = v.const_value()
+        return Poly.const(Fr(1) / cv) if cv not in (None, 0) else inv_poly(v)
+    # ite / wrap / wrapcast and anything else: rebuild polynomial arguments structurally, keep the rest
+    return Poly.atom(tuple(R(x) if isinstance(x, Poly) else x for x in a))
